@@ -164,6 +164,24 @@ static void prop_c03_exec(hz::Ctx &ctx) {
 }
 void prop_c03(hz::Ctx &ctx) { prop_c03_encoding(ctx); prop_c03_exec(ctx); }
 
+// a line that chunk fitting has to pad is encoded twice by the library (once at the unpadded position, once behind
+// the padding): the instruction behind the NOPs must still be the one written
+static void run_fitted(hz::Ctx &ctx, const LineCase &c) {
+  if (!ctx.take()) return;
+  std::string id = "F|" + serialize(c); if (!ctx.begin(id, text(c.it))) return;
+  auto plain = al::assemble(text(c.it), c.combo); if (plain.rc != 0 || plain.bytes.empty()) return;
+  size_t L = plain.bytes.size(); if (L < 2) return;
+  int chunk = L < 8 ? 8 : 16; int start = chunk - 1;   // one byte left in the chunk: every instruction of 2+ bytes must be padded
+  std::vector<uint8_t> buf(128, 0xcc); assemblyline_t a = asm_create_instance(buf.data(), 128); al::apply_opts(a, combo_opts(c.combo)); asm_set_chunk_size(a, chunk); asm_set_offset(a, start);
+  int rc = asm_assemble_str(a, text(c.it).c_str()); int off = asm_get_offset(a); asm_destroy_instance(a);
+  ctx.cls("part:re-encoded-by-fitting"); ctx.nontrivial(id);
+  std::string why;
+  if (rc != 0) why = "fitting call failed";
+  else { size_t p = start; while (p < (size_t)off) { x86::Insn n = x86::decode(buf.data() + p, off - p); if (!n.ok || !n.isnop) break; p += n.len; }
+    if ((size_t)off - p != L || memcmp(buf.data() + p, plain.bytes.data(), L)) why = "behind the padding the instruction is " + x86::hex(buf.data() + p, off - p) + " ; assembled plainly it is " + x86::hex(plain.bytes.data(), L); }
+  if (!why.empty()) { hz::Failure f = make_failure(c, "re-encoding", why); f.caseid = id; f.tags.push_back("group:fitted"); ctx.fail(f); }
+}
+
 // ---------------------------------------------------------------- C04
 void prop_c04(hz::Ctx &ctx) {
   auto nontriv = [](const LineCase &c) { for (auto &o : c.it.ops) { if ((o.k == K_GPR || o.k == K_XMM || o.k == K_YMM) && o.reg >= 8) return true; if (o.k == K_GPR && o.width == 32) return true; if (o.k == K_MEM) return true; } return false; };
@@ -171,7 +189,8 @@ void prop_c04(hz::Ctx &ctx) {
   // (a) register-only forms: every tuple
   for (auto &r : form_refs([](const Form &f) { return is_vector_cls(f.cls) && reg_only(f); })) {
     std::vector<std::vector<WOpd>> cands; for (auto &s : r.slots) cands.push_back(reg_candidates(s, r.size));
-    product(r, cands, [&](Intent &it) { for (int c : combos_for(ctx, hz::fnv(it.mn), false, false)) { LineCase lc{it, c}; run_case(ctx, lc, nontriv); } });
+    uint64_t cnt = 0;
+    product(r, cands, [&](Intent &it) { for (int c : combos_for(ctx, hz::fnv(it.mn), false, false)) { LineCase lc{it, c}; run_case(ctx, lc, nontriv); if ((cnt++ % (ctx.thorough() ? 7 : 61)) == 0) run_fitted(ctx, lc); } });
   }
   // (b) register + imm8 forms: every tuple x a few immediates
   for (auto &r : form_refs([](const Form &f) { return is_vector_cls(f.cls) && has_imm(f) && !has_mem(f); })) {
@@ -192,7 +211,7 @@ void prop_c04(hz::Ctx &ctx) {
         else { auto all = reg_candidates(s, r.size); std::vector<WOpd> pick; // two low, two high registers per slot
                pick.push_back(all[rng.below(8) % all.size()]); if (all.size() > 8) pick.push_back(all[8 + rng.below(8)]); cands.push_back(pick); }
       }
-      product(r, cands, [&](Intent &it) { for (int c : combos_for(ctx, si, true, false)) { LineCase lc{it, c}; run_case(ctx, lc, nontriv); } });
+      product(r, cands, [&](Intent &it) { for (int c : combos_for(ctx, si, true, false)) { LineCase lc{it, c}; run_case(ctx, lc, nontriv); if ((si + c) % 5 == 0) run_fitted(ctx, lc); } });
     }
   }
 }
@@ -271,6 +290,14 @@ void prop_c05(hz::Ctx &ctx) {
 
 // replay of one serialized line case under the generic oracle (C01-C04 and the indirect part of C05)
 int replay_line(const std::string &prop, const std::string &caseid) {
+  if (caseid.compare(0, 2, "F|") == 0) {
+    LineCase c; if (!parse_case(caseid.substr(2), c)) return 2; hz::Ctx ctx; ctx.out = fopen("/dev/null", "w"); long before = 0; (void)before;
+    auto plain = al::assemble(text(c.it), c.combo); size_t L = plain.bytes.size(); int chunk = L < 8 ? 8 : 16, start = chunk - 1;
+    std::vector<uint8_t> buf(128, 0xcc); assemblyline_t a = asm_create_instance(buf.data(), 128); al::apply_opts(a, combo_opts(c.combo)); asm_set_chunk_size(a, chunk); asm_set_offset(a, start); int rc = asm_assemble_str(a, text(c.it).c_str()); int off = asm_get_offset(a); asm_destroy_instance(a);
+    size_t p = start; while (rc == 0 && p < (size_t)off) { x86::Insn n = x86::decode(buf.data() + p, off - p); if (!n.ok || !n.isnop) break; p += n.len; }
+    bool ok = rc == 0 && (size_t)off - p == L && !memcmp(buf.data() + p, plain.bytes.data(), L);
+    printf("%s [chunk %d, start %d]: plain %s ; fitted %s\n", text(c.it).c_str(), chunk, start, x86::hex(plain.bytes.data(), L).c_str(), x86::hex(buf.data() + start, off > start ? off - start : 0).c_str()); printf(ok ? "OK\n" : "FAIL\n"); return ok ? 0 : 1;
+  }
   if (caseid.compare(0, 2, "X|") == 0) {
     auto f = split(caseid, '|'); if (f.size() != 7) return 2;
     ExecVerdict e = exec_mov(atoi(f[1].c_str()), atoi(f[2].c_str()), strtoull(f[3].c_str(), nullptr, 16), f[4] == "1", f[5] == "1", atoi(f[6].c_str()));
